@@ -19,7 +19,9 @@ CONSTANTS Tier, Seed, Mod, TickMs, MaxOps
 Queries == << "sum by (a) (m)", "m", "rate(m[3s])", "topk(1, m)", "m + on (a) group_left () n", "abs(m{a=\"x\"}) + m", "scalar(n{a=\"x\"})",
               "m + on (a) n", "absent(nope)", "max_over_time(m[4s:2s])", "m @ 3", "sum(m) / count(m)", "time()", "quantile by (a) (0.5, m)",
               \* range functions over ranges of different lengths (what one query buffers must not serve the next)
-              "sum_over_time(m[2s])", "sum_over_time(m[9s])", "sum by (a) (count_over_time(m[5s]))", "last_over_time(m[1s])" >>
+              "sum_over_time(m[2s])", "sum_over_time(m[9s])", "sum by (a) (count_over_time(m[5s]))", "last_over_time(m[1s])",
+              \* selectors pinned to the start / end of the window they are asked for (the same text means something else in every window)
+              "m @ end()", "sum(m @ start())", "sum_over_time(m[3s] @ end())", "m - m @ start()" >>
 \* kinds: ok = plain execution; cancel = executed with a context cancelled beforehand or midway; (failing / fallback
 \* queries are in the basket: index 8 fails with many-to-many, 9 and 10 take the fallback path)
 ExecKinds == {"ok", "ok", "cancel-before", "cancel-mid"}
